@@ -822,6 +822,12 @@ def report(ck, raw):
 
 def replay(path):
     doc = jdec(json.load(open(path)))
+    if doc.get('clause') == 'log-dump':
+        viol = [v for v in log_dump_part()[1] if v[3].get('ids') == doc.get('ids')]
+        for v in viol:
+            print('reproduced:', v[0], v[1], v[2][:300])
+        print('REPLAY %s' % ('reproduces a violation' if viol else 'does not reproduce'))
+        sys.exit(1 if viol else 0)
     h, labels, mode, extra = doc['header'], tuple(doc['labels']), doc['mode'], doc.get('extra')
     if 'input' in doc:
         viol, outcome = check_bytes(doc['input'], KEYS if mode == 'sk' else None)
@@ -840,6 +846,50 @@ def replay(path):
         print('reproduced: %s %s\n   %s' % (clause, eff, det[:1500]))
     print('REPLAY %s' % ('reproduces a violation' if viol else 'does not reproduce'))
     sys.exit(1 if viol else 0)
+
+
+def log_dump_part():
+    """clause 5 through the daemon: every message an endpoint sends or receives leaves one DEBUG record that is the JSON dump
+    of that message, whatever characters the decoded text fields contain (they end up inside a log call)"""
+    import logging
+    from harness import scenarios as S
+    out, n = [], 0
+    for lab, ida, idb in (('plain', 'alice@openikev2', 'bob@openikev2'), ('percent', 'alice%sales@openikev2', 'bob%d@openikev2'),
+                          ('percent-s', 'a%s@openikev2', 'b%(x)s@openikev2'), ('braces', 'a{0}@openikev2', 'b{self}@openikev2'),
+                          ('percent-fqdn', '100%.openikev2', 'b%%.openikev2')):
+        n += 1
+        confs = S.base_confs(a_over={'my_auth': {'id': ida, 'psk': 'testing'}, 'peer_auth': {'id': idb, 'psk': 'testing2'}},
+                             b_over={'my_auth': {'id': idb, 'psk': 'testing2'}, 'peer_auth': {'id': ida, 'psk': 'testing'}})
+        w = S.new_world(confs, log_level=logging.DEBUG)
+        w.all_logs, w.sent_log = [], []
+        w.step(('acquire', 'A', 0, 0))
+        w.deliver_all()
+        w.step(('due', 'B', 0, 'dpd'))
+        w.deliver_all()
+        doc = dict(clause='log-dump', ids=[ida, idb])
+        bad_fmt = [m for lvl, m in w.all_logs if m.startswith('FORMAT-ERROR')]
+        if bad_fmt:
+            out.append(('log-dump', 'record-cannot-be-formatted', 'identities %r / %r: %d log records could not be formatted, e.g. %s' % (
+                ida, idb, len(bad_fmt), bad_fmt[0][:200]), doc))
+        dumps = []
+        for lvl, m in w.all_logs:
+            if lvl == logging.DEBUG and '"spi_i"' in m and '{' in m:
+                try:
+                    dumps.append(json.loads(m[m.index('{'):]))
+                except ValueError:
+                    out.append(('log-dump', 'dump-is-not-json', 'a DEBUG record that starts a message dump does not parse: %s' % m[:200], doc))
+        if not any(e.controller.ike_sas for e in w.endpoints.values()):
+            out.append(('log-dump', 'handshake-failed', 'identities %r / %r: the handshake did not complete' % (ida, idb), doc))
+            continue
+        want = 2 * len(w.sent_log)
+        if len(dumps) != want:
+            out.append(('log-dump', 'dumps-missing', 'identities %r / %r: %d datagrams were sent and received, %d message dumps were '
+                        'logged (expected %d)' % (ida, idb, len(w.sent_log), len(dumps), want), doc))
+        text = json.dumps(dumps)
+        for ident in (ida, idb):
+            if json.dumps(ident)[1:-1] not in text:
+                out.append(('log-dump', 'identity-not-shown', 'identity %r does not appear literally in any dump' % ident, doc))
+    return n, out
 
 
 def main():
@@ -870,6 +920,10 @@ def main():
     n += acc.n
     raw += acc.raw
     report(ck, raw)
+    n_log, log_viol = log_dump_part()
+    n += n_log
+    for clause, eff, det, doc in log_viol:
+        ck.violation('%s:%s' % (clause, eff), det, doc)
     # clause 5, "shows every field value": messages with different content have different dumps
     by = {}
     for hl, labels, mode, dg, content in sorted(dumps):
